@@ -37,8 +37,15 @@ PROPERTIES = {
               'Partial: building the table from namespace strings, descriptor re-keying and IndexMap re-insertion are not under contract.',
         note='Trusted: Kani 0.68/CBMC; anyhow shim; instantiation T = u8, N in {2,3,4} (loops run over the const generic N with unwinding assertions); other N not covered.',
         out=['quill/src/action/reorder.rs (table construction, remapper, map_with_key_from_result_iter over IndexMap)']),
+    'C19': dict(
+        level='proof', verus=['scope'], kani=[],
+        technique=VERUS_TECH,
+        claim='Unbounded (finite, exhaustive) proof that the nested function the_scope_table equals the scope table of the Maven documentation on every documented cell and cuts provided/test/system dependencies. '
+              'Partial: this is the only function of the resolver within reach; effective-POM construction, nearest-wins mediation (async recursion, HashSet/VecDeque of Strings) and coordinate printing are not under contract.',
+        note='Trusted: Verus+Z3; extraction rewrites (serde/default attributes stripped from the enum). The argument order at the call site is not checked.',
+        out=['maven_dependency_resolver/src/maven_pom_done.rs', 'clean_up_dependencies / Forest::breadth_first_retain', 'coord.rs printing/parsing', 'call site of the_scope_table in get_dependencies_tree (async)']),
     'C16': dict(
-        level='proof', verus=['rlabels', 'cwrite', 'wjump', 'rskip', 'rbranch', 'adiff'], kani=[],
+        level='proof', verus=['rlabels', 'cwrite', 'wjump', 'rskip', 'rbranch', 'adiff', 'scope'], kani=[],
         technique=VERUS_TECH + ': implicit safety obligations (overflow, index, unwrap, unreachable, termination)',
         claim='Unbounded proof of panic-freedom and termination for every function extracted for the other properties (Verus generates no-overflow, in-bounds, no-failing-unwrap, unreachable!() unreachable, decreases obligations for each). '
               'Partial: text parsers built on Peekable<Chars>/BufRead are outside the verifier and not covered.',
@@ -67,6 +74,5 @@ NOT_APPLICABLE = {
     'C11': 'not yet built (planned: bounded Kani inner class split/join)',
     'C13': 'not yet built (planned: bounded Kani merge_preserve_order)',
     'C18': 'not yet built (planned: bounded Kani descriptor grammar)',
-    'C19': 'not yet built (planned: Verus the_scope_table)',
     'C20': 'not yet built (planned: Verus attribute_length per variant on macro-expanded raw_class_file)',
 }
